@@ -13,6 +13,10 @@ inductive Cmd where
   /-- the flow compiles the program's text ITSELF (`lang::compile(src, overrides)`, the documented way to obtain a scope) and keeps
   the scope as `<pname>_c` -/
   | cu (pname : String) (upd : List (Name × Nat))
+  /-- the flow clears the runtime's stop flag from inside the callback. The loop polls the flag only before a `recv`
+  (`get_next_read`), so for the model this is a log line; the generator puts the `X` item right after the datagram in which the
+  request is made (`C18.dispatch_after_stop_bounded`: the rest of the current datagram is still dispatched, then the run ends `Ok`) -/
+  | st
 
 structure AlgSpec where
   nameHex : String
@@ -38,6 +42,7 @@ def parseCmd (s : String) : Option Cmd :=
   match s.splitOn ":" with
   | ["sp", p, u] => if u = "-" then some (.sp p none) else (parseUpd u).map fun l => .sp p (some l)
   | ["uf", u] => if u = "-" then some (.uf []) else (parseUpd u).map .uf
+  | ["st"] => some .st
   | ["gf", h] => (hexToName h).map fun n => .gf h n
   | ["gfp", p, h] => (hexToName h).map fun n => .gfp p h n
   | ["cu", p, u] => if u = "-" then some (.cu p []) else (parseUpd u).map fun l => .cu p l
@@ -205,6 +210,7 @@ def interp (srcs : List (String × Bytes)) (progs : List ProgInfo) (report : Opt
       | some sc => .log s!"SP {p} OK {showUid progs sc.uid}"
           (interp srcs progs report rest { s with cur := some sc, byProg := (p, sc) :: s.byProg.filter (·.1 ≠ p) })
       | none => .log s!"SP {p} ERR" (interp srcs progs report rest s)
+  | .st :: rest, s => .log "ST" (interp srcs progs report rest s)
   | .uf upd :: rest, s =>
     match s.cur with
     | none => .log "UF NOSCOPE" (interp srcs progs report rest s)
